@@ -184,7 +184,7 @@ def replay(ctx, case):
 def run(ctx):
     meter = Meter(jumps=True, depth_every=64)
     meter.install()
-    pairs = [(f, p) for f in F.FAMILIES for p in PRESETS]
+    pairs = [(f, p) for f in F.FAMILIES for p in PRESETS if not (f in F.AUTO_CM_ONLY and p != ("js" if "strikethrough" in F.FAMILIES[f][2] else "cm"))]
     # heavier pairs first so that shards finish together
     for i, (fam, pname) in enumerate(pairs):
         if not ctx.mine(i):
